@@ -23,6 +23,14 @@ CLAIMED = {
         design="DESIGN.md section 2, C01",
         technique="symbolic-shape execution of base.py on an index-map backend; QF_NIA/LIA validity queries (z3)",
     ),
+    "C15": dict(
+        text="For each listed public entry point and argument kind (arrays, transposed views, factor tuples/lists, wrapper objects, option lists, masks, fixed modes, "
+        "user initialisations, a raising call) every caller-owned argument is snapshotted term by term, the real function runs symbolically (the in-place inner "
+        "solvers run for real, one sweep), and afterwards `exists input values: argument entry != snapshot` must be unsatisfiable on every path and every container "
+        "structurally unchanged. The solver matters because an in-place clip / masked write / row reset only changes the buffer for some values.",
+        design="DESIGN.md section 2, C15",
+        technique="symbolic execution with argument snapshots; term-equality validity queries per path (z3)",
+    ),
     "C17": dict(
         engine="E3-symstate",
         text="One-step inductive check of the real BackendManager/TenalgBackendManager from an arbitrary pre-state (shared default, optional per-thread overrides) "
